@@ -45,7 +45,13 @@ func c08Main(args []string) error {
 			o.imm = 1 << 16 // small initial map: growth in the failing commit needs a remap
 		}
 		// prefix: a few committed transactions
-		cfg := genCfg{ps: o.ps, txs: 1 + cr.intn(4), opsPerTx: 10, bigVals: cr.chance(1, 2), readers: false, reopen: false, malformed: false, moves: true}
+		cfg := genCfg{ps: o.ps, txs: cr.intn(4), opsPerTx: 10, bigVals: cr.chance(1, 2), readers: false, reopen: false, malformed: false, moves: true}
+		if (wl+int(c.seed))%4 == 3 {
+			// a brand-new file opened without freelist sync still points at the freelist page Open wrote;
+			// the very first write transaction is the failing one
+			o.nfs = true
+			cfg.txs = 0
+		}
 		prefix := genHistory(cr.fork(), cfg, o)
 		// strip the trailing "beginr 901 ... close" epilogue
 		for len(prefix) > 0 && prefix[len(prefix)-1] != "commit" && prefix[len(prefix)-1] != "rollback" && !strings.HasPrefix(prefix[len(prefix)-1], "open ") {
